@@ -150,6 +150,7 @@ ModeKeyOK(mode, kind) ==
       [] mode = "hmac-sha256" -> kind \in {"gen32", "gen64"}
       [] mode = "hmac-sha512" -> kind = "gen64"
       [] mode \in {"rsa-pkcs", "sha256-rsa-pkcs", "sha256-rsa-pss", "rsa-oaep", "rsa-pkcs-enc"} -> kind = "rsa"
+      [] mode = "ecdsa" -> kind = "ec"
       [] OTHER -> FALSE
 NeedsBlocks(mode) == mode \in {"aes-ecb", "aes-cbc", "des3-ecb"}
 \* (output terms are not entered in the table - nothing refers to them later; the expectation carries the term)
